@@ -338,9 +338,10 @@ theorem startsSelect_interc (sep : Tok) (O : List Tok) (Os : List (List Tok)) (h
   | cons O' Os => rw [interc_cons2, startsSelect_append _ h]
 
 /-- operands joined by `and` (resp. `or`) are read as their conjunction (resp. disjunction) -/
-theorem opnds_reads (isAnd : Bool) (it : List Tok × Meaning) (items : List (List Tok × Meaning))
+theorem opnds_reads_sep (isAnd : Bool) (sep : Tok) (hsep : cls sep = if isAnd then .kand else .kor)
+    (it : List Tok × Meaning) (items : List (List Tok × Meaning))
     (h : ∀ x ∈ it :: items, Opnd x.1 x.2) :
-    Reads (interc (sepTok isAnd) ((it :: items).map (·.1)))
+    Reads (interc sep ((it :: items).map (·.1)))
       (fun asg => if isAnd then (it :: items).all (·.2 asg) else (it :: items).any (·.2 asg)) := by
   have hOr : ∀ X ∈ (it :: items).map (·.1), topFree isOrC X = true := by
     intro X hX; obtain ⟨x, hx, rfl⟩ := List.mem_map.mp hX; exact (h x hx).freeOr
@@ -350,9 +351,10 @@ theorem opnds_reads (isAnd : Bool) (it : List Tok × Meaning) (items : List (Lis
   simp only [List.map_cons] at hOr hAnd ⊢
   cases isAnd with
   | true =>
-    have s1 : cls (sepTok true) ≠ .lp := by decide
-    have s2 : cls (sepTok true) ≠ .rp := by decide
-    have hfree := topFree_interc isOrC (sepTok true) (by decide) s1 s2 _ _ hOr
+    simp only [↓reduceIte] at hsep
+    have s1 : cls sep ≠ .lp := by rw [hsep]; decide
+    have s2 : cls sep ≠ .rp := by rw [hsep]; decide
+    have hfree := topFree_interc isOrC sep (by rw [hsep]; rfl) s1 s2 _ _ hOr
     refine ⟨bal_of_topFree hfree, by rw [startsSelect_interc _ _ _ hne]; exact (h it (by simp)).nosel, ?_⟩
     intro f hf
     cases f with
@@ -360,7 +362,7 @@ theorem opnds_reads (isAnd : Bool) (it : List Tok × Meaning) (items : List (Lis
     | succ f =>
       have hl : ∀ x ∈ it :: items, x.1.length ≤ f + 1 := by
         intro x hx
-        have := length_le_interc (sepTok true) (it.1 :: items.map (·.1)) x.1 (by
+        have := length_le_interc sep (it.1 :: items.map (·.1)) x.1 (by
           rw [← List.map_cons (f := fun x : List Tok × Meaning => x.1)]; exact List.mem_map_of_mem hx)
         omega
       obtain ⟨ts, hts, _, hms⟩ := opnds_parse f (it :: items) h hl
@@ -368,15 +370,16 @@ theorem opnds_reads (isAnd : Bool) (it : List Tok × Meaning) (items : List (Lis
       simp only [parseG]
       rw [parseDisj_single _ hfree]
       unfold parseConj
-      rw [splitTop_interc isAndC (sepTok true) (by decide) s1 s2 _ _ hAnd]
+      rw [splitTop_interc isAndC sep (by rw [hsep]; rfl) s1 s2 _ _ hAnd]
       simp only [List.map_cons, List.map_map] at hts ⊢
       have : (List.map ((parseOperand (parseG f)) ∘ fun x : List Tok × Meaning => x.1) items) =
           List.map (fun it : List Tok × Meaning => parseOperand (parseG f) it.1) items := rfl
       rw [this, hts]; rfl
   | false =>
-    have s1 : cls (sepTok false) ≠ .lp := by decide
-    have s2 : cls (sepTok false) ≠ .rp := by decide
-    have hfree := topFree_interc isAndC (sepTok false) (by decide) s1 s2 _ _ hAnd
+    simp only [Bool.false_eq_true, ↓reduceIte] at hsep
+    have s1 : cls sep ≠ .lp := by rw [hsep]; decide
+    have s2 : cls sep ≠ .rp := by rw [hsep]; decide
+    have hfree := topFree_interc isAndC sep (by rw [hsep]; rfl) s1 s2 _ _ hAnd
     refine ⟨bal_of_topFree hfree, by rw [startsSelect_interc _ _ _ hne]; exact (h it (by simp)).nosel, ?_⟩
     intro f hf
     cases f with
@@ -384,7 +387,7 @@ theorem opnds_reads (isAnd : Bool) (it : List Tok × Meaning) (items : List (Lis
     | succ f =>
       have hl : ∀ x ∈ it :: items, x.1.length ≤ f + 1 := by
         intro x hx
-        have := length_le_interc (sepTok false) (it.1 :: items.map (·.1)) x.1 (by
+        have := length_le_interc sep (it.1 :: items.map (·.1)) x.1 (by
           rw [← List.map_cons (f := fun x : List Tok × Meaning => x.1)]; exact List.mem_map_of_mem hx)
         omega
       obtain ⟨ts, hts, hlen, hms⟩ := opnds_parse f (it :: items) h hl
@@ -394,7 +397,7 @@ theorem opnds_reads (isAnd : Bool) (it : List Tok × Meaning) (items : List (Lis
         refine ⟨mkOr (t :: ts), ?_, fun asg => by simp only [mkOr_eval, (hms asg).2]; simp⟩
         simp only [parseG]
         unfold parseDisj
-        rw [splitTop_interc isOrC (sepTok false) (by decide) s1 s2 _ _ hOr]
+        rw [splitTop_interc isOrC sep (by rw [hsep]; rfl) s1 s2 _ _ hOr]
         have hc : List.map (parseConj (parseG f)) (it.1 :: items.map (·.1)) =
             List.map (fun it : List Tok × Meaning => parseOperand (parseG f) it.1) (it :: items) := by
           rw [← List.map_cons (f := fun x : List Tok × Meaning => x.1), List.map_map]
@@ -402,6 +405,12 @@ theorem opnds_reads (isAnd : Bool) (it : List Tok × Meaning) (items : List (Lis
           intro x hx
           exact parseConj_single _ (h x hx).freeAnd
         rw [hc, hts]; rfl
+
+theorem opnds_reads (isAnd : Bool) (it : List Tok × Meaning) (items : List (List Tok × Meaning))
+    (h : ∀ x ∈ it :: items, Opnd x.1 x.2) :
+    Reads (interc (sepTok isAnd) ((it :: items).map (·.1)))
+      (fun asg => if isAnd then (it :: items).all (·.2 asg) else (it :: items).any (·.2 asg)) :=
+  opnds_reads_sep isAnd (sepTok isAnd) (by cases isAnd <;> decide) it items h
 
 /-- one operand alone is an expression -/
 theorem opnd_reads {O : List Tok} {m : Meaning} (h : Opnd O m) : Reads O m := by
@@ -915,5 +924,191 @@ theorem leaf_reads {ep : Endpoint} {pit : Bool} {ledger : Chars} {key : FKey} {o
   · obtain rfl := Except.ok.inj h
     refine one ?_ (cmp_atom _ (by decide) op v)
     simp only [leafSkel, h0]
+
+/-! ## whole expressions -/
+
+/-- what `setTail` writes after the first item: `) sep ( T₁ ) sep ( T₂ … )` -/
+def tailToks (sep : Tok) : List (List Tok) → List Tok
+  | [] => [tokRP]
+  | T :: Ts => tokRP :: sep :: tokLP :: (T ++ tailToks sep Ts)
+
+theorem tail_interc (sep : Tok) : ∀ (Ts : List (List Tok)) (T : List Tok),
+    tokLP :: (T ++ tailToks sep Ts) = interc sep ((T :: Ts).map paren)
+  | [], T => by simp [tailToks, interc, paren_eq]
+  | T' :: Ts, T => by
+    have ih := tail_interc sep Ts T'
+    simp only [List.map_cons] at ih ⊢
+    rw [interc_cons2, ← ih]
+    simp [tailToks, paren_eq]
+
+theorem semTail_eq (ep : Endpoint) (pit : Bool) (ledger : Chars) (asg : List Tok → Bool) (isAnd : Bool) :
+    ∀ es : List Expr, semTail ep pit ledger asg isAnd es =
+      if isAnd then es.all (sem ep pit ledger asg) else es.any (sem ep pit ledger asg)
+  | [] => by cases isAnd <;> simp [semTail]
+  | e :: es => by
+    have ih := semTail_eq ep pit ledger asg isAnd es
+    cases isAnd <;> simp_all [semTail]
+
+theorem lexL_lp : lexL ['('] = [tokLP] := by decide
+theorem lexL_rp : lexL [')'] = [tokRP] := by decide
+theorem lexL_notlp : lexL "not (".toList = [tokNot, tokLP] := by decide
+theorem lexL_sep (isAnd : Bool) : lexL (if isAnd then ") and (".toList else ") or (".toList) = [tokRP, sepTok isAnd, tokLP] := by
+  cases isAnd <;> decide
+theorem lexL_one : lexL "1 = 1".toList = oneEqOne := by decide
+
+theorem const_opnd : Opnd oneEqOne (fun _ => true) where
+  ne := by decide
+  nosel := by decide
+  freeOr := by decide
+  freeAnd := by decide
+  parse := fun f _ => ⟨.tt, rfl, fun _ => rfl⟩
+
+mutual
+/-- **the reading of the rendered text is the meaning of the expression**, for every nesting depth and list length -/
+theorem expr_reads (ep : Endpoint) (pit : Bool) (ledger : Chars) : ∀ (e : Expr) (ps : List Piece),
+    exprPieces ep pit ledger e = .ok ps → Reads (pieceToks ps) (fun asg => sem ep pit ledger asg e)
+  | .leaf k op v, ps, h => by
+    simp only [exprPieces] at h
+    simpa only [sem] using leaf_reads h
+  | .set isAnd [], ps, h => by
+    simp only [exprPieces] at h
+    obtain rfl := Except.ok.inj h
+    have : pieceToks [.code "1 = 1".toList] = oneEqOne := by rw [pieceToks_code, lexL_one]; rfl
+    rw [this]
+    exact (opnd_reads const_opnd).congr (fun asg => by simp [sem])
+  | .set isAnd (e :: es), ps, h => by
+    simp only [exprPieces] at h
+    cases h1 : exprPieces ep pit ledger e with
+    | error r => simp [h1] at h
+    | ok p1 =>
+      cases h2 : setTail ep pit ledger isAnd es with
+      | error r => simp [h1, h2] at h
+      | ok q1 =>
+        simp only [h1, h2] at h
+        obtain rfl := Except.ok.inj h
+        have r1 := expr_reads ep pit ledger e p1 h1
+        obtain ⟨items, hq, hr, hm⟩ := tail_reads ep pit ledger isAnd es q1 h2
+        have htoks : pieceToks (.code ['('] :: p1 ++ q1) =
+            interc (sepTok isAnd) (((pieceToks p1, fun asg => sem ep pit ledger asg e) ::
+              items).map (fun it => paren it.1)) := by
+          rw [List.cons_append, pieceToks_code, pieceToks_append, lexL_lp, hq]
+          have := tail_interc (sepTok isAnd) (items.map (·.1)) (pieceToks p1)
+          simpa [List.map_map, Function.comp_def] using this
+        rw [htoks]
+        have := opnds_reads isAnd (paren (pieceToks p1), fun asg => sem ep pit ledger asg e)
+          (items.map (fun it => (paren it.1, it.2))) (by
+            intro x hx
+            rcases List.mem_cons.mp hx with rfl | hx
+            · exact paren_opnd r1
+            · obtain ⟨it, hit, rfl⟩ := List.mem_map.mp hx
+              exact paren_opnd (hr it hit))
+        simp only [List.map_cons, List.map_map, Function.comp_def, List.all_cons, List.any_cons, List.all_map, List.any_map] at this ⊢
+        refine this.congr (fun asg => ?_)
+        rw [sem]
+        have hm' := hm asg
+        cases isAnd <;> simp_all
+  | .not e, ps, h => by
+    simp only [exprPieces] at h
+    cases h1 : exprPieces ep pit ledger e with
+    | error r => simp [h1] at h
+    | ok p1 =>
+      simp only [h1] at h
+      obtain rfl := Except.ok.inj h
+      have r1 := expr_reads ep pit ledger e p1 h1
+      have htoks : pieceToks (.code "not (".toList :: p1 ++ [.code [')']]) = tokNot :: paren (pieceToks p1) := by
+        rw [List.cons_append, pieceToks_code, pieceToks_append, lexL_notlp, pieceToks_code, lexL_rp, paren_eq]
+        rfl
+      rw [htoks]
+      exact (opnd_reads (not_opnd (paren_opnd r1))).congr (fun asg => by simp [sem])
+/-- the items after the first: their token lists, each read as its own meaning, and the meaning of the rest -/
+theorem tail_reads (ep : Endpoint) (pit : Bool) (ledger : Chars) (isAnd : Bool) : ∀ (es : List Expr) (qs : List Piece),
+    setTail ep pit ledger isAnd es = .ok qs →
+    ∃ items : List (List Tok × Meaning), pieceToks qs = tailToks (sepTok isAnd) (items.map (·.1)) ∧
+      (∀ it ∈ items, Reads it.1 it.2) ∧
+      ∀ asg, semTail ep pit ledger asg isAnd es = if isAnd then items.all (·.2 asg) else items.any (·.2 asg)
+  | [], qs, h => by
+    simp only [setTail] at h
+    obtain rfl := Except.ok.inj h
+    refine ⟨[], ?_, by simp, fun asg => by cases isAnd <;> simp [semTail]⟩
+    rw [pieceToks_code, lexL_rp]; rfl
+  | e :: es, qs, h => by
+    simp only [setTail] at h
+    cases h1 : exprPieces ep pit ledger e with
+    | error r => simp [h1] at h
+    | ok p1 =>
+      cases h2 : setTail ep pit ledger isAnd es with
+      | error r => simp [h1, h2] at h
+      | ok q1 =>
+        simp only [h1, h2] at h
+        obtain rfl := Except.ok.inj h
+        have r1 := expr_reads ep pit ledger e p1 h1
+        obtain ⟨items, hq, hr, hm⟩ := tail_reads ep pit ledger isAnd es q1 h2
+        refine ⟨(pieceToks p1, fun asg => sem ep pit ledger asg e) :: items, ?_, ?_, ?_⟩
+        · rw [List.cons_append, pieceToks_code, pieceToks_append, lexL_sep, hq]
+          simp [tailToks]
+        · intro it hit
+          rcases List.mem_cons.mp hit with rfl | hit
+          · exact r1
+          · exact hr it hit
+        · intro asg
+          rw [semTail, hm asg]
+          cases isAnd <;> simp
+end
+
+mutual
+theorem skel_eval (ep : Endpoint) (pit : Bool) (ledger : Chars) (asg : List Tok → Bool) : ∀ e : Expr,
+    (skel ep pit ledger e).eval asg = sem ep pit ledger asg e
+  | .leaf k op v => by simp [skel, sem]
+  | .set isAnd [] => by simp [skel, sem, BTree.eval]
+  | .set isAnd (e :: es) => by
+    have h1 := skel_eval ep pit ledger asg e
+    have h2 := skels_eval ep pit ledger asg es
+    rw [skel, sem, semTail_eq, semTail_eq]
+    cases isAnd
+    · simp only [Bool.false_eq_true, ↓reduceIte, mkOr_eval, List.any_cons, h1, h2]
+    · simp only [↓reduceIte, mkAnd_eval, List.all_cons, h1, h2]
+  | .not e => by simp [skel, sem, BTree.eval, skel_eval ep pit ledger asg e]
+theorem skels_eval (ep : Endpoint) (pit : Bool) (ledger : Chars) (asg : List Tok → Bool) : ∀ es : List Expr,
+    ((skels ep pit ledger es).all (·.eval asg) = es.all (sem ep pit ledger asg)) ∧
+    ((skels ep pit ledger es).any (·.eval asg) = es.any (sem ep pit ledger asg))
+  | [] => by simp [skels]
+  | e :: es => by
+    have h1 := skel_eval ep pit ledger asg e
+    have h2 := skels_eval ep pit ledger asg es
+    simp [skels, h1, h2.1, h2.2]
+end
+
+/-! ## the statement's own `where` -/
+
+theorem whereToks_eq : ∀ (c : List Tok) (cs : List (List Tok)), whereToks (c :: cs) = interc tokAND ((c :: cs).map paren)
+  | c, [] => rfl
+  | c, c' :: cs => by
+    have ih := whereToks_eq c' cs
+    simp only [List.map_cons] at ih ⊢
+    rw [interc_cons2, ← ih]; rfl
+
+/-- conjuncts that bun wraps in parentheses and joins by `AND`: atomic conditions of the statement, then the filter -/
+theorem where_reads (pre : List (List Tok)) (hpre : ∀ c ∈ pre, isAtomToks c = true) {T : List Tok} {m : Meaning}
+    (h : Reads T m) : Reads (whereToks (pre ++ [T])) (fun asg => pre.all asg && m asg) := by
+  cases pre with
+  | nil =>
+    simp only [List.nil_append, whereToks, List.all_nil, Bool.true_and]
+    exact opnd_reads (paren_opnd h)
+  | cons c cs =>
+    rw [List.cons_append, whereToks_eq]
+    have := opnds_reads_sep true tokAND (by decide)
+      (paren c, fun asg => asg c) ((cs.map (fun x => (paren x, fun asg : List Tok → Bool => asg x))) ++ [(paren T, m)]) (by
+        intro x hx
+        rcases List.mem_cons.mp hx with rfl | hx
+        · exact paren_opnd (opnd_reads (atom_opnd (hpre c (by simp))))
+        · rcases List.mem_append.mp hx with hx | hx
+          · obtain ⟨y, hy, rfl⟩ := List.mem_map.mp hx
+            exact paren_opnd (opnd_reads (atom_opnd (hpre y (by simp [hy]))))
+          · simp only [List.mem_cons, List.not_mem_nil, or_false] at hx
+            subst hx
+            exact paren_opnd h)
+    simp only [List.map_cons, List.map_append, List.map_map, Function.comp_def, List.map_nil] at this ⊢
+    refine this.congr (fun asg => ?_)
+    simp [List.all_append, List.all_map, Function.comp_def, Bool.and_assoc]
 
 end FilterSem
